@@ -355,6 +355,18 @@ def check(ctx):
             # argument k
             ids = (e.data["bound"] or {}).get("ids")
             k = None
+            # an index list keeps its values through np.array(ids, dtype=int)
+            # / np.asarray(ids) / list(ids)
+            for _ in range(3):
+                if ids is not None and is_call_to(
+                        ids, "numpy.array", "numpy.asarray", "builtins.list",
+                        "builtins.tuple") and len(ids.args[1]) == 1 and all(
+                            k_ == "dtype" and (
+                                v_ is T("global", "builtins.int") or
+                                tm.is_const(v_, "int") or
+                                fmt(v_) in ("int", "np.int64", "np.intp"))
+                            for k_, v_ in ids.args[2]):
+                    ids = ids.args[1][0]
             ids_all = ids
             if ids is not None and ids.op == "ite":
                 # a shortcut next to the search (identical stamps ...): the
